@@ -438,7 +438,9 @@ static int w_declare(char *kind, char *name, char *rest, int owner)
 		P[i].exists = 1; P[i].owner = owner; P[i].max = 1; P[i].cur = -1;
 		for (tok = rest ? strtok_r(rest, " \t\n", &save) : NULL; tok != NULL; tok = strtok_r(NULL, " \t\n", &save)) {
 			if (!strncmp(tok, "max=", 4)) P[i].max = atoi(tok + 4);
-			if (!strcmp(tok, "hooks")) P[i].hooks = 1;
+			if (!strcmp(tok, "hooks")) P[i].hooks = 1;		/* both */
+			if (!strcmp(tok, "hooks-start")) P[i].hooks = 2;	/* only thread_start set, thread_stop NULL */
+			if (!strcmp(tok, "hooks-stop")) P[i].hooks = 3;		/* only thread_stop set (state created lazily by the work functions) */
 		}
 		return 1;
 	}
@@ -475,8 +477,9 @@ static int w_action(char *op, int guard, char *a1, char *a2, char *rest)
 		IV_WORK_POOL_INIT(&P[i].pool);
 		P[i].pool.max_threads = P[i].max;
 		P[i].pool.cookie = (void *)(long)(0x80000 + n);
-		if (P[i].hooks) { P[i].pool.thread_start = hook_start; P[i].pool.thread_stop = hook_stop; }
-		mt_log("API poolcreate %s max=%d hooks=%d\n", PI[n].name, P[i].max, P[i].hooks);
+		if (P[i].hooks == 1 || P[i].hooks == 2) P[i].pool.thread_start = hook_start;
+		if (P[i].hooks == 1 || P[i].hooks == 3) P[i].pool.thread_stop = hook_stop;
+		mt_log("API poolcreate %s max=%d hooks=%s\n", PI[n].name, P[i].max, P[i].hooks == 0 ? "0" : P[i].hooks == 1 ? "1" : P[i].hooks == 2 ? "start" : "stop");
 		creating_pool = n; creating_pool_step = 0;
 		r = iv_work_pool_create(&P[i].pool);
 		creating_pool = -1;
